@@ -1,0 +1,29 @@
+// SPDX-License-Identifier: MIT OR Apache-2.0
+
+//! Verification schedule points (only compiled with `--cfg p2panda_p2panda_verif`).
+//!
+//! A harness can install a closure which is called at named points in the code. Nothing is
+//! installed by default, in which case a point is a read of an empty `RwLock`.
+use std::sync::{Arc, RwLock};
+
+type Hook = Arc<dyn Fn(&'static str) + Send + Sync>;
+
+static HOOK: RwLock<Option<Hook>> = RwLock::new(None);
+
+/// Install a closure which gets called with the name of every schedule point reached.
+pub fn install(hook: impl Fn(&'static str) + Send + Sync + 'static) {
+    *HOOK.write().expect("verif hook lock") = Some(Arc::new(hook));
+}
+
+/// Remove the installed closure.
+pub fn clear() {
+    *HOOK.write().expect("verif hook lock") = None;
+}
+
+/// Named schedule point.
+pub fn point(name: &'static str) {
+    let hook = HOOK.read().expect("verif hook lock").clone();
+    if let Some(hook) = hook {
+        hook(name);
+    }
+}
